@@ -149,7 +149,7 @@ func c18Gen(r *rand.Rand, tier string) []Case {
 		} else {
 			gp = big.NewInt(0)
 		}
-		out = append(out, Case{fmt.Sprintf("tx %d %d %d %d %s %s %s %s %s %s %s ? ? ? %s # key=%d unprot=%d", typ, chain, nonce, gas, gp, tip, cap, to, amt(), data, access, base, r.Intn(8), unprot)})
+		out = append(out, Case{fmt.Sprintf("tx %d %d %d %d %s %s %s %s %s %s %s ? ? ? %s # key=%d unprot=%d", typ, chain, nonce, gas, gp, tip, cap, to, amt(), data, access, base, r.Intn(8), unprot) + pick(r, []string{"", "", " from=other"})})
 	}
 	return out
 }
@@ -238,9 +238,21 @@ func c18Exec(c Case) (outs []string, fails []Failure, tags []string) {
 				return
 			}
 			b := txCfg.NewTxBuilder()
-			built, err := msg.BuildTx(b, "aISLM")
-			if err != nil {
-				panic(err)
+			var built sdk.Tx
+			if kv["from"] == "other" {
+				// the message's From field is wire data, not part of what was signed: a Cosmos transaction assembled by hand
+				// can carry any address there
+				msg.From = common.BytesToAddress(crypto.Keccak256([]byte("someone else"))[:20]).Hex()
+				if err := b.SetMsgs(msg); err != nil {
+					panic(err)
+				}
+				built = b.GetTx()
+				tags = append(tags, "from-field-set")
+			} else {
+				built, err = msg.BuildTx(b, "aISLM")
+				if err != nil {
+					panic(err)
+				}
 			}
 			bz, err := txCfg.TxEncoder()(built)
 			if err != nil {
@@ -318,6 +330,22 @@ func c18Exec(c Case) (outs []string, fails []Failure, tags []string) {
 			s2, e2 := ethtypes.Sender(signer, tx2)
 			if e1 != nil || e2 != nil || s1 != s2 || s1 != crypto.PubkeyToAddress(key.PublicKey) {
 				fl("C18:sender-changed", fmt.Sprintf("sender %s (%v) → %s (%v)", s1, e1, s2, e2))
+			}
+			if e1 == nil {
+				if gs, e := m2.GetSender(chain); e != nil || gs != s1 {
+					fl("C18:message-sender", fmt.Sprintf("the decoded message reports the sender %s (%v), the signature recovers %s", gs, e, s1))
+				}
+				// one message value reused for a second transaction keeps nothing of the first
+				re := &evmtypes.MsgEthereumTx{}
+				other, e0 := ethtypes.SignNewTx(c18Key((vmIdx(kv["key"])+1)%8), signer, inner)
+				if e0 == nil && re.FromEthereumTx(other) == nil {
+					_, _ = re.GetSender(chain)
+					if raw, e := tx.MarshalBinary(); e == nil && re.UnmarshalBinary(raw) == nil {
+						if gs, e := re.GetSender(chain); e != nil || gs != s1 {
+							fl("C18:message-sender:reused-message", fmt.Sprintf("a message first holding another transaction reports the sender %s (%v) after UnmarshalBinary, the signature recovers %s", gs, e, s1))
+						}
+					}
+				}
 			}
 			bin1, _ := tx.MarshalBinary()
 			bin2, _ := tx2.MarshalBinary()
